@@ -5,18 +5,18 @@ from ..oracles import landscape as OL
 from ..util import scale_of
 
 ID = "C03"
-CASES = {"quick": 8000, "thorough": 150000}
-MIN_NONTRIVIAL = {"quick": 3000, "thorough": 50000}
+CASES = {"quick": 8000, "thorough": 1500000}
+MIN_NONTRIVIAL = {"quick": 3000, "thorough": 160000}
 REQUIRED = ["depth 1 == max tent (complete PL comparison)", "every depth == k-th largest tent (complete PL comparison)",
             "critical points ordered, continuous", "functions vanish at both ends", "depths returned <= number of bars",
             "hom_deg selects the diagram", "one trailing infinite bar ignored"]
 RULE = ("diagrams of 1-12 bars of positive length on small integer / half-integer grids (all coincidences exact in binary): "
         "nested, overlapping, disjoint, touching (d_i=b_j), equal births, equal deaths, repeated bars x2..x4, sweep collisions, "
-        "random input order; plus random float bars; scales 1e-3..1e3; hom_deg 0..2 with decoy diagrams. Both sides are "
+        "random input order; plus random float bars; scales 1e-3..1e3; the same configurations far from the origin (offset 1e5-1e7 bar lengths) and at absolute scale 1e-9; hom_deg 0..2 with decoy diagrams. Both sides are "
         "piecewise linear, so they are compared on the union of their breakpoints (+ midpoints + outside points): a complete "
         "equality test per input and per depth. non-trivial = >=3 bars with at least one overlapping pair; distinct = digest "
         "of the sorted bars")
-ASSUMPTIONS = ["tolerance 1e-9*scale", "the guarded trace hook (PERSIM_VERIF=1) is used only to attribute mismatches to the "
+ASSUMPTIONS = ["tolerance 1e-9*(longest bar) + 8 eps*(largest coordinate)", "the guarded trace hook (PERSIM_VERIF=1) is used only to attribute mismatches to the "
                "known finding C03/dup-shortcut: a mismatch counts as that finding only if the shortcut fired at or above the "
                "first wrong depth AND an independent shortcut-free sweep (itself validated against the definition on the same "
                "input) has a genuinely repeated bar at the head of its residual list at that depth; depth 1 and the ordering "
@@ -116,8 +116,14 @@ def build(ctx, dgms, hom_deg):
     return P.critical_pairs, sorted(i for w, i in EVENTS if w == "dup-shortcut")
 
 
+def tolerance(bars):
+    """1e-9 of the longest bar plus the rounding of the coordinates themselves (never 1e-9 of the coordinates)"""
+    b = np.asarray(bars, float)
+    return 1e-9 * float(np.max(b[:, 1] - b[:, 0])) + 8 * np.finfo(float).eps * float(np.max(np.abs(b)))
+
+
 def judge(ctx, bars, depths, copies, tag=""):
-    tol = 1e-9 * scale_of(bars)
+    tol = tolerance(bars)
     n = len(bars)
     problems = []
     for dp in depths:
@@ -141,8 +147,21 @@ def judge(ctx, bars, depths, copies, tag=""):
             ctx.note("shortcut-fired-but-correct")
 
 
+def far_or_tiny(rng, bars, style):
+    """the same configuration far from the origin (lengths << coordinates) or at a tiny absolute scale: the landscape is
+    translation- and scale-equivariant, tolerances written in absolute or coordinate-relative terms are not"""
+    r = rng.random()
+    if r < 0.10:
+        unit = float(np.min(bars[:, 1] - bars[:, 0]))
+        return bars + float(rng.choice([1e5, 1e6, 1e7])) * unit, style + "+far"
+    if r < 0.16:
+        return bars * float(rng.choice([1e-9, 1e-7])) / max(float(np.max(np.abs(bars))), 1e-300), style + "+tiny"
+    return bars, style
+
+
 def run_case(ctx, k, rng):
     bars, style = gen_bars(rng)
+    bars, style = far_or_tiny(rng, bars, style)
     hom = int(rng.choice([0, 0, 1, 2]))
     dgms = [np.array([[0.0, 1.0], [0.5, 7.0]]) * (j + 1) for j in range(hom)] + [bars]
     if rng.random() < 0.3:
@@ -171,8 +190,8 @@ def run_case(ctx, k, rng):
         try:
             withinf = np.vstack([bars, [[float(bars[:, 0].min()), np.inf]]])
             di, ci = build(ctx, [withinf], 0)
-            first_bad, wit = OL.compare_exact([tuple(r) for r in bars], di, 1e-9 * scale_of(bars))
-            key = classify(bars, first_bad, ci, 1e-9 * scale_of(bars))
+            first_bad, wit = OL.compare_exact([tuple(r) for r in bars], di, tolerance(bars))
+            key = classify(bars, first_bad, ci, tolerance(bars))
             ctx.check("one trailing infinite bar ignored", first_bad is None, key=key, critical_pairs=di, **wit)
         except Exception as e:
             ctx.exception("one trailing infinite bar ignored", e)
